@@ -126,12 +126,12 @@ func init() {
 
 // ColType describes one column type of the universe.
 type ColType struct {
-	Name    string
-	Typ     reflect.Type
-	Keyable bool // Less and Hash registered (usable as sort/shuffle key)
+	Name     string
+	Typ      reflect.Type
+	Keyable  bool // Less and Hash registered (usable as sort/shuffle key)
 	Sortable bool // Less registered
-	Val     func(k int) interface{}
-	Less    func(a, b interface{}) bool
+	Val      func(k int) interface{}
+	Less     func(a, b interface{}) bool
 }
 
 func ct(name string, zero interface{}, keyable bool, val func(k int) interface{}, less func(a, b interface{}) bool) ColType {
@@ -195,7 +195,23 @@ var Universe = []ColType{
 		}
 		return p
 	}, nil),
+	// pointer-free fixed-size values whose size is not a power of two (20 and 12 bytes): frames copy
+	// such values with size-specialised code
+	ct("digest", Digest{}, false, func(k int) interface{} {
+		var d Digest
+		for i := range d {
+			d[i] = byte(k*31 + i*7 + 1)
+		}
+		return d
+	}, nil),
+	ct("tri32", Tri32{}, false, func(k int) interface{} { return Tri32{int32(k), int32(k*3 + 1), int32(-k - 2)} }, nil),
 }
+
+// Digest is a 20-byte pointer-free array column type.
+type Digest [20]byte
+
+// Tri32 is a 12-byte pointer-free struct column type.
+type Tri32 struct{ A, B, C int32 }
 
 func init() {
 	// gob assigns type ids process-globally in order of first use; encode every
@@ -539,15 +555,15 @@ type Chunk struct {
 // Zero-sized chunks deliver (0, nil). If ErrAt >= 0 an error is returned once
 // that many rows have been delivered.
 type ChunkReader struct {
-	F       frame.Frame
-	Script  []Chunk
+	F           frame.Frame
+	Script      []Chunk
 	EOFWithRows bool
-	ErrAt   int
-	Err     error
-	pos     int
-	step    int
-	done    bool
-	Reads   int
+	ErrAt       int
+	Err         error
+	pos         int
+	step        int
+	done        bool
+	Reads       int
 }
 
 // NewChunkReader creates a chunk reader over f.
